@@ -56,28 +56,80 @@ pub fn eval(expr: Node) -> Result<i64, Box<dyn error::Error>> {
         Number(i) => Ok(i),
         And(expr1, expr2) => Ok(eval(*expr1)? & eval(*expr2)?),
         Or(expr1, expr2) => Ok(eval(*expr1)? | eval(*expr2)?),
-        LeftShift(expr1, expr2) => Ok(eval(*expr1)? << eval(*expr2)?),
-        RightShift(expr1, expr2) => Ok(eval(*expr1)? >> eval(*expr2)?),
-        Add(expr1, expr2) => Ok(eval(*expr1)? + eval(*expr2)?),
-        Subtract(expr1, expr2) => Ok(eval(*expr1)? - eval(*expr2)?),
-        Multiply(expr1, expr2) => Ok(eval(*expr1)? * eval(*expr2)?),
-        Divide(expr1, expr2) => Ok(eval(*expr1)? / eval(*expr2)?),
-        Modulo(expr1, expr2) => Ok(eval(*expr1)? % eval(*expr2)?),
-        Negative(expr1) => Ok(-(eval(*expr1)?)),
-        Pow(expr1, expr2) => Ok(eval(*expr1)?.pow(eval(*expr2)? as u32)),
+        LeftShift(expr1, expr2) => {
+            let a = eval(*expr1)?;
+            let count = u32::try_from(eval(*expr2)?).map_err(|_| "Invalid shift count")?;
+            a.checked_shl(count)
+                .ok_or_else(|| "Invalid shift count".into())
+        }
+        RightShift(expr1, expr2) => {
+            let a = eval(*expr1)?;
+            let count = u32::try_from(eval(*expr2)?).map_err(|_| "Invalid shift count")?;
+            a.checked_shr(count)
+                .ok_or_else(|| "Invalid shift count".into())
+        }
+        Add(expr1, expr2) => {
+            let a = eval(*expr1)?;
+            let b = eval(*expr2)?;
+            a.checked_add(b)
+                .ok_or_else(|| "Integer overflow in addition".into())
+        }
+        Subtract(expr1, expr2) => {
+            let a = eval(*expr1)?;
+            let b = eval(*expr2)?;
+            a.checked_sub(b)
+                .ok_or_else(|| "Integer overflow in subtraction".into())
+        }
+        Multiply(expr1, expr2) => {
+            let a = eval(*expr1)?;
+            let b = eval(*expr2)?;
+            a.checked_mul(b)
+                .ok_or_else(|| "Integer overflow in multiplication".into())
+        }
+        Divide(expr1, expr2) => {
+            let a = eval(*expr1)?;
+            let b = eval(*expr2)?;
+            a.checked_div(b)
+                .ok_or_else(|| "Division by zero or integer overflow in division".into())
+        }
+        Modulo(expr1, expr2) => {
+            let a = eval(*expr1)?;
+            let b = eval(*expr2)?;
+            if b == 0 {
+                return Err("Modulo by zero".into());
+            }
+            Ok(a.wrapping_rem(b))
+        }
+        Negative(expr1) => eval(*expr1)?
+            .checked_neg()
+            .ok_or_else(|| "Integer overflow in negation".into()),
+        Pow(expr1, expr2) => {
+            let a = eval(*expr1)?;
+            let b = u32::try_from(eval(*expr2)?)
+                .map_err(|_| "The exponent is negative or too large")?;
+            a.checked_pow(b)
+                .ok_or_else(|| "Integer overflow in power".into())
+        }
         Factorial(sub_expr) => {
             let sub_result = eval(*sub_expr)?;
             if sub_result >= 0 {
-                let mut factorial_result = 1;
-                for i in 2..=(sub_result as usize) {
-                    factorial_result *= i as i64;
+                if sub_result > 20 {
+                    return Err("Integer overflow in factorial".into());
+                }
+                let mut factorial_result: i64 = 1;
+                for i in 2..=sub_result {
+                    factorial_result = factorial_result
+                        .checked_mul(i)
+                        .ok_or("Integer overflow in factorial")?;
                 }
                 Ok(factorial_result)
             } else {
                 Ok(0)
             }
         }
-        Abs(sub_expr) => Ok(eval(*sub_expr)?.abs()),
+        Abs(sub_expr) => eval(*sub_expr)?
+            .checked_abs()
+            .ok_or_else(|| "Integer overflow in abs".into()),
         Sqrt(sub_expr) => {
             let before_sqr = eval(*sub_expr)? as f64;
             Ok(before_sqr.sqrt() as i64)
@@ -102,7 +154,10 @@ pub fn eval(expr: Node) -> Result<i64, Box<dyn error::Error>> {
             if result < 0 {
                 Ok(0)
             } else {
-                Ok(1 << result)
+                u32::try_from(result)
+                    .ok()
+                    .and_then(|e| 2_i64.checked_pow(e))
+                    .ok_or_else(|| "Integer overflow in exp2".into())
             }
         }
         Log(expr1, expr2) => {
@@ -174,12 +229,16 @@ pub fn eval(expr: Node) -> Result<i64, Box<dyn error::Error>> {
             }
         }
         Avg(args) => {
-            let mut result = 0;
+            let mut result: i64 = 0;
             for arg in <Vec<Node> as Clone>::clone(&args).into_iter() {
-                result += eval(arg)?;
+                result = result
+                    .checked_add(eval(arg)?)
+                    .ok_or("Integer overflow in avg")?;
             }
             let len = args.len() as i64;
-            Ok(result / len)
+            result
+                .checked_div(len)
+                .ok_or_else(|| "Cannot compute the average of no arguments".into())
         }
         Med(args) => {
             let mut results = vec![];
@@ -189,7 +248,10 @@ pub fn eval(expr: Node) -> Result<i64, Box<dyn error::Error>> {
             results.sort_by(|a, b| a.partial_cmp(b).unwrap());
             let len = results.len();
             if len % 2 == 0 {
-                Ok((results[len >> 1] + results[(len >> 1) - 1]) / 2)
+                results[len >> 1]
+                    .checked_add(results[(len >> 1) - 1])
+                    .and_then(|sum| sum.checked_div(2))
+                    .ok_or_else(|| "Integer overflow in med".into())
             } else {
                 Ok(results[len >> 1])
             }
